@@ -439,11 +439,21 @@ func (a *zzG10Arena) start() (err error) {
 			// The DNS listeners are up when the TCP one accepts (it is bound
 			// after the UDP one).  No question is asked: with safe browsing
 			// on, an answer would wait for the remote service.
+			//
+			// The filtering, statistics and query-log routes are registered
+			// by their Start methods, AFTER the DNS server reports running:
+			// wait for them too.
 			c, derr := net.DialTimeout("tcp", fmt.Sprintf("%s:%d", zzG10Host, a.dnsPort), 300*time.Millisecond)
 			if derr == nil {
 				_ = c.Close()
+				all := true
+				for _, p := range []string{"/control/filtering/status", "/control/stats/config", "/control/querylog/config"} {
+					all = all && a.do(http.MethodGet, p, nil).Code == 200
+				}
 
-				return nil
+				if all {
+					return nil
+				}
 			}
 		}
 
@@ -1049,6 +1059,18 @@ func zzG10Strs(v any) (l []string) {
 func zzG10Sorted(l []string) (out []string) {
 	out = append([]string{}, l...)
 	sort.Strings(out)
+
+	return out
+}
+
+func zzG10Uniq(l []string) (out []string) {
+	seen := map[string]bool{}
+	for _, x := range l {
+		if !seen[x] {
+			seen[x] = true
+			out = append(out, x)
+		}
+	}
 
 	return out
 }
@@ -1792,7 +1814,9 @@ func (a *zzG10Arena) effects(st zzG10M) (bad []string) {
 		}
 	}
 
-	if s("prot") == "on" {
+	// Rewrites are part of filtering: they are not applied while filtering
+	// is switched off.
+	if filt {
 		rws, _ := st["rw"].([]string)
 		for id, e := range zzG10Rewrites {
 			has := false
@@ -1800,7 +1824,8 @@ func (a *zzG10Arena) effects(st zzG10M) (bad []string) {
 				has = has || x == id
 			}
 
-			sig := sigOf(e[0], dns.TypeA, "")
+			// An entry added twice answers twice.
+			sig := strings.Join(zzG10Uniq(strings.Split(sigOf(e[0], dns.TypeA, ""), ",")), ",")
 			if (sig == "A="+e[1]) != has {
 				miss("rw", fmt.Sprintf("%s present=%v", id, has), sig)
 			}
@@ -2147,6 +2172,7 @@ type zzG10Vec struct {
 	Outs   []zzG10Out `json:"outs"`
 	Target bool       `json:"target"`
 	taken  bool
+	failed bool
 }
 
 type zzG10Graph struct {
@@ -2243,7 +2269,7 @@ func (g *zzG10Graph) pick(cur int, rng *rand.Rand, stop bool) (v *zzG10Vec) {
 		}
 
 		for _, x := range g.bySrc[s] {
-			if len(x.Outs) != 1 || x.Outs[0].Dst == s || x.Lab.Op == "crashduring" {
+			if len(x.Outs) != 1 || x.Outs[0].Dst == s || x.Lab.Op == "crashduring" || x.failed {
 				continue
 			}
 
@@ -2370,6 +2396,15 @@ func TestZZVerifG10Walk(t *testing.T) {
 				}
 
 				put(zzG10M{"kind": "bad", "v": v.ID, "step": st, "hist": hist, "arena": w})
+				// Do not travel over this label again (all labels of its kind,
+				// if it keeps failing, are tried once each as targets anyway).
+				g.mu.Lock()
+				for _, x := range g.Vecs {
+					if x.Lab == v.Lab {
+						x.failed = true
+					}
+				}
+				g.mu.Unlock()
 				cur = -1
 			}
 		}(w)
@@ -2428,8 +2463,8 @@ func (a *zzG10Arena) randomLabel(rep zzG10M) (l zzG10Lab) {
 			return zzG10Lab{Op: pick([]string{"cl_add", "cl_add", "cl_upd"}), V: pick([]string{"c1", "c2"}), W: pick([]string{"a", "b"})}
 		case n < 88:
 			return zzG10Lab{Op: "cl_del", V: pick([]string{"c1", "c2"})}
-		case n < 91:
-			return zzG10Lab{Op: pick([]string{"ss_enable", "ss_disable"})}
+		case n < 90:
+			return zzG10Lab{Op: pick([]string{"ss_enable", "ss_disable", "ss_disable"})}
 		case n < 94:
 			if s, _ := rep["svc"].(string); s == "s1p" {
 				return zzG10Lab{Op: "set", C: "svc", V: "none"}
@@ -2512,7 +2547,9 @@ func TestZZVerifG10Trace(t *testing.T) {
 					rep := o.Rep
 					for i := 1; i <= length && !time.Now().After(deadline); i++ {
 						l := a.randomLabel(rep)
+						t0 := time.Now()
 						st := a.exec(l)
+						ms := time.Since(t0).Milliseconds()
 						nz := func(m zzG10M) zzG10M {
 							if m == nil {
 								return zzG10M{}
@@ -2531,8 +2568,10 @@ func TestZZVerifG10Trace(t *testing.T) {
 						}
 
 						rows = append(rows, zzG10M{"h": h, "i": i, "ev": "step", "lab": l, "cls": st.Cls, "code": st.Code,
-							"rep": nz(st.Obs.Rep), "file": nz(st.Obs.File), "effbad": eb, "err": errs, "body": st.Body})
-						if st.Obs.Rep == nil {
+							"rep": nz(st.Obs.Rep), "file": nz(st.Obs.File), "effbad": eb, "err": errs, "body": st.Body, "ms": ms})
+						// What follows a contradiction is skipped by the
+						// validator anyway.
+						if st.Obs.Rep == nil || len(eb) > 0 || errs != "" {
 							break
 						}
 
